@@ -4997,7 +4997,7 @@ class HCI_LE_Set_Extended_Advertising_Parameters_Command(
         metadata=metadata(Address.parse_address_preceded_by_type)
     )
     advertising_filter_policy: int = field(metadata=metadata(1))
-    advertising_tx_power: int = field(metadata=metadata(1))
+    advertising_tx_power: int = field(metadata=metadata(-1))
     primary_advertising_phy: int = field(metadata=Phy.type_metadata(1))
     secondary_advertising_max_skip: int = field(metadata=metadata(1))
     secondary_advertising_phy: int = field(metadata=Phy.type_metadata(1))
